@@ -12,6 +12,7 @@ pub mod c09;
 pub mod c10;
 pub mod c11;
 pub mod c12;
+pub mod c14;
 pub mod c15;
 pub mod c16;
 pub mod c17;
@@ -34,6 +35,7 @@ pub fn run(ctx: &mut Ctx) {
         "C10" => c10::run_check(ctx),
         "C11" => c11::run_check(ctx),
         "C12" => c12::run_check12(ctx),
+        "C14" => c14::run_check(ctx),
         "C15" => c15::run_check(ctx),
         "C16" => c16::run_check(ctx),
         "C17" => c17::run_check(ctx),
@@ -61,6 +63,7 @@ pub fn replay(ctx: &mut Ctx, case: &serde_json::Value) {
         "C10" => c10::replay(ctx, case),
         "C11" => c11::replay(ctx, case),
         "C12" | "C13" => c12::replay(ctx, case),
+        "C14" => c14::replay(ctx, case),
         "C15" => c15::replay(ctx, case),
         "C16" => c16::replay(ctx, case),
         "C17" => c17::replay(ctx, case),
